@@ -429,6 +429,9 @@ fn run(args: &[String]) {
         tot.boxes_out += s.boxes_out; tot.solver_s += s.solver_s;
         tot.inconclusive.extend(s.inconclusive); tot.violations.extend(s.violations); tot.known.extend(s.known); tot.samples.extend(s.samples);
     }
+    // replay files are written for the first 25 violations only (a broken overlay violates thousands of layouts):
+    // list those first, so that the report's first entry always names a file
+    tot.violations.sort_by_key(|v| v.starts_with('|'));
     let q = |v: &Vec<String>, cap: usize| -> String { v.iter().take(cap).map(|s| format!("\"{}\"", json_escape(s))).collect::<Vec<_>>().join(", ") };
     let report = format!(
         "{{\"tier\": \"{tier}\", \"layouts_total\": {n}, \"layouts_enumerated\": {}, \"cut_short_by_budget\": {}, \"queries\": {}, \"unsat\": {}, \"vacuity_twins_sat\": {}, \"nontrivial_layouts\": {}, \"output_boxes\": {}, \"solver_s\": {:.2}, \"wall_s\": {:.2}, \"workers\": {workers}, \"n_inconclusive\": {}, \"n_violations\": {}, \"n_known\": {}, \"known\": [{}], \"inconclusive\": [{}], \"violations\": [{}], \"samples\": [{}]}}\n",
